@@ -314,4 +314,6 @@ def check(ctx):
     check_latch(ctx)
     check_failed_outputs(ctx)
     check_read_errors(ctx)
+    from . import tablefmt
+    tablefmt.check_iterator_statuses(ctx)     # a failed table read during compaction / lookup must not end as success
     check_aborts(ctx)
